@@ -505,6 +505,8 @@ def run(chk):
     _pendingmark_rule(chk, prog)
     _givewithdraw_rule(chk, prog)
     _sweepbound_rule(chk, prog)
+    _resizefirst_rule(chk, prog)
+    _supervisorpark_rule(chk, prog)
 
 
 # who may append at the TAIL of a channel's queues; everything that hands an element back (a value bounced by a reader
@@ -769,3 +771,83 @@ def _sweepbound_rule(chk, prog):
             else:
                 chk.ok(rule, "%s: the pass over %s runs for a count taken before it started" % (fn.name, q))
     chk.floor(rule, 1, n)
+
+
+def _resizefirst_rule(chk, prog):
+    """janet_q_maybe_resize grows a full ring: it reallocates `data`, moves the head segment to the end of the new
+    block and changes `head` and `capacity`.  An index computed from the queue's fields before that call describes
+    the old layout; used afterwards it points in front of the moved segment - in a full ring that is the tail slot, so
+    head becomes equal to tail and the queue reads as empty, every queued entry lost."""
+    rule = "C06-RESIZEFIRST"
+    chk.rule(rule, "a function that may grow a ring queue (janet_q_maybe_resize) uses no value it derived from the queue's fields before that call")
+    tu = prog.tus["ev.c"]
+    n = 0
+    for fn in tu.funcs.values():
+        rs = fn.calls("janet_q_maybe_resize")
+        if not rs:
+            continue
+        n += 1
+        chk.instance(rule)
+        chk.analysed(fn)
+
+        def qfield(e):
+            return any(y.k == "mem" and y.rec == "JanetQueue" and y.field in ("head", "tail", "capacity", "data") for y in e.walk())
+
+        def transfer(st, x):
+            fresh, stale = st
+            if x.k == "vardecl" and x.kids and qfield(x.kids[0]):
+                return (fresh | {x.name}, stale - {x.name})
+            if x.k == "asg" and x.op == "=" and is_ref(x.kids[0]):
+                if qfield(x.kids[1]):
+                    return (fresh | {x.kids[0].name}, stale - {x.kids[0].name})
+                return (fresh - {x.kids[0].name}, stale - {x.kids[0].name})
+            if x.k == "call" and x in rs:
+                return (frozenset(), stale | fresh)
+            return st
+        IN, OUT = flow.forward(fn, (frozenset(), frozenset()), transfer, lambda a, b: (a[0] | b[0], a[1] | b[1]))
+        bad = None
+        for x, st in flow.states_at(fn, IN, transfer):
+            if x.k == "ref" and x.name in st[1] and bad is None:
+                p_ = x.parent
+                if p_ is not None and p_.k == "asg" and p_.op == "=" and p_.kids[0] is x:
+                    continue
+                bad = x
+        if bad is None:
+            chk.ok(rule, "%s: nothing derived from the queue's layout survives the resize" % fn.name)
+        else:
+            chk.violation(rule, "ev.c", fn.name, bad.name, bad.loc,
+                          "`%s` was computed from the queue's head / tail / capacity before janet_q_maybe_resize and is used at %s after it: "
+                          "when the ring was full and wrapped, the resize moved the head segment and the stale index lands on the tail slot - "
+                          "the queue then reads as empty and every queued entry is lost" % (bad.name, bad.loc))
+    chk.floor(rule, 2, n)
+
+
+def _supervisorpark_rule(chk, prog):
+    """A cfunction that ends in janet_await() parks the calling fiber; something must be registered to wake it.  For a
+    give that is the pending-writer entry janet_channel_push adds in its blocking modes (0 and 1).  The public
+    janet_channel_give is mode 2 - "do not block": over the limit it queues the item, registers nothing and returns 1.
+    Awaiting on that result parks the fiber for ever."""
+    rule = "C06-PARKMODE"
+    chk.rule(rule, "a channel function that awaits on the result of a push uses a blocking mode (janet_channel_push mode 0/1), never the non-registering janet_channel_give / mode 2")
+    tu = prog.tus["ev.c"]
+    n = 0
+    for fn in tu.funcs.values():
+        if not fn.calls("janet_await"):
+            continue
+        pushes = [c for c in fn.nodes if c.k == "call" and c.callee in ("janet_channel_push", "janet_channel_give", "janet_channel_push_with_lock")]
+        for c in pushes:
+            n += 1
+            chk.instance(rule)
+            chk.analysed(fn)
+            mode = None
+            if c.callee == "janet_channel_give":
+                mode = 2
+            elif len(c.args) >= 3:
+                mode = strip_casts(c.args[2]).v
+            if mode == 2:
+                chk.violation(rule, "ev.c", fn.name, c.callee, c.loc,
+                              "%s awaits after `%s`, which is the non-blocking form (mode 2): when the channel is over its limit it returns 1 "
+                              "without registering the fiber as a pending writer, so nothing ever resumes it" % (fn.name, c.text()[:50]))
+            else:
+                chk.ok(rule, "%s: `%s` registers the fiber before it awaits" % (fn.name, c.text()[:40]))
+    chk.floor(rule, 2, n)
